@@ -54,7 +54,9 @@ def _ConvertFunctionType(ft: LinearIR.FunctionType) -> WebAssembly.FunctionType:
     for argType in ft.Arguments.values():
         argTypes.append(_ConvertType(argType))
 
-    resultTypes.append(_ConvertType(ft.ReturnType))
+    # A function returning nothing has no result type at all
+    if not ft.ReturnType.IsVoid():
+        resultTypes.append(_ConvertType(ft.ReturnType))
 
     return WebAssembly.FunctionType(argTypes, resultTypes)
 
